@@ -241,9 +241,9 @@ pub fn gen_ur(rng: &mut Rng, ir: &Ir) -> i128 {
             // around a configured breakpoint
             let p = ir.pts[rng.below(5) as usize].0 as i128;
             let bits = (p << 48) / u32max;
-            bits + rng.range(-2, 2) as i128
+            bits.wrapping_add(rng.range(-2, 2) as i128)
         }
-        4 => ir.optimal + rng.range(-2, 2) as i128,
+        4 => ir.optimal.wrapping_add(rng.range(-2, 2) as i128),
         5 => rng.below(ONE as u64 + 1) as i128,
         6 => rng.below(ONE as u64 * 3) as i128,
         7 => -(rng.below(ONE as u64) as i128),
